@@ -33,6 +33,9 @@ type Frame struct {
 	// LenAnnounce, when >=0, overrides the announced payload length (used to
 	// build frames that announce more than they carry). Encode only.
 	LenAnnounce int64
+	// LenMSB: the length is written in the 64-bit form with the most
+	// significant bit set (RFC 6455 5.2: "the most significant bit MUST be 0").
+	LenMSB bool
 }
 
 func IsControl(op byte) bool  { return op&0x8 != 0 }
@@ -62,6 +65,9 @@ func AppendFrame(wire []byte, f *Frame) []byte {
 		b1 = 0x80
 	}
 	switch {
+	case f.LenMSB:
+		wire = append(wire, b0, b1|127,
+			byte(n>>56)|0x80, byte(n>>48), byte(n>>40), byte(n>>32), byte(n>>24), byte(n>>16), byte(n>>8), byte(n))
 	case n <= 125:
 		wire = append(wire, b0, b1|byte(n))
 	case n <= 65535:
